@@ -63,10 +63,11 @@ func Nested(t *ref.T) any {
 // TensorOf on nested data (no other operation involved); higher ranks through
 // TensorOf(flat) + Reshape + ResetGradContext.
 //
-// An UNTRACKED tensor of rank 1..4 is, for 4 in 10 value sets (chosen by a hash of the values, so a case replays
+// An UNTRACKED tensor of rank 1..4 is, for 9 in 15 value sets (chosen by a hash of the values, so a case replays
 // identically), not built directly but obtained as a RESULT: Reshape of the flat data, Slice out of a padded tensor,
 // Concat of two parts, or directly but with NElems / Shape / Sum asked for first. By C08 such a result is a plain
 // untracked value, indistinguishable from a leaf; every check thereby also runs on operands that have a history.
+// Further provenances: a Zeros / Full / Eye tensor completely overwritten by Patch a gradient tensor adopted as data after ResetGradContext(false) (9 value sets in 15 are derived in all).
 func Leaf(t *ref.T, tracked bool) (tensor.Tensor, error) {
 	if !tracked && len(t.Shape) >= 1 && len(t.Shape) <= 4 && len(t.Data) <= 4096 && !plainLeaves {
 		if x, err := derivedLeaf(t); x != nil || err != nil {
@@ -99,7 +100,7 @@ func derivedLeaf(t *ref.T) (tensor.Tensor, error) {
 	}
 	n0 := t.Shape[0]
 	row := len(t.Data) / n0
-	switch (h >> 20) % 10 {
+	switch (h >> 20) % 15 {
 	case 6: // Reshape of the flat data
 		f, err := tensor.TensorOf(append([]float64(nil), t.Data...), Conf(false))
 		if err != nil {
@@ -137,6 +138,54 @@ func derivedLeaf(t *ref.T) (tensor.Tensor, error) {
 			return nil, err
 		}
 		return tensor.Concat([]tensor.Tensor{a, b}, 0)
+	case 10, 11, 12: // a constant tensor (Zeros / Full / Eye) completely overwritten by Patch with the wanted values
+		var base tensor.Tensor
+		var err error
+		switch {
+		case (h>>20)%15 == 12 && len(t.Shape) == 2 && t.Shape[0] == t.Shape[1]:
+			base, err = tensor.Eye(t.Shape[0], Conf(false))
+		case (h>>20)%15 == 11:
+			base, err = tensor.Full(ref.CopyInts(t.Shape), t.Data[0], Conf(false))
+		default:
+			base, err = tensor.Zeros(ref.CopyInts(t.Shape), Conf(false))
+		}
+		if err != nil {
+			return nil, err
+		}
+		src, err := directLeaf(t, false)
+		if err != nil {
+			return nil, err
+		}
+		if (h>>44)%2 == 0 {
+			return base.Patch(nil, src)
+		}
+		idx := make([]tensor.Range, len(t.Shape))
+		for i, d := range t.Shape {
+			idx[i] = tensor.Range{From: 0, To: d}
+		}
+		return base.Patch(idx, src)
+	case 13: // a GRADIENT tensor adopted as data: d(ones * c)/d(ones) = c exactly; ResetGradContext(false) makes it a fresh untracked leaf
+		ones, err := tensor.Ones(ref.CopyInts(t.Shape), Conf(true))
+		if err != nil {
+			return nil, err
+		}
+		c, err := directLeaf(t, false)
+		if err != nil {
+			return nil, err
+		}
+		y, err := ones.Mul(c)
+		if err != nil {
+			return nil, err
+		}
+		if err := tensor.BackPropagate(y); err != nil {
+			return nil, err
+		}
+		g := ones.Gradient()
+		if g == nil {
+			return nil, fmt.Errorf("harness: no gradient to adopt")
+		}
+		g.ResetGradContext(false)
+		return g, nil
 	case 9: // built directly, statistics taken before first use
 		x, err := directLeaf(t, false)
 		if err == nil {
